@@ -157,3 +157,134 @@ def check_C20(tier, replay):
 
 
 REGISTRY = {"C10": check_C10, "C11": check_C11, "C20": check_C20}
+
+
+# ---------------------------------------------------------------------------
+# C06 / C07: transcripts of the real engine
+
+import engine_jobs as ej  # noqa: E402
+
+
+def input_circuit(n, k, outs=2):
+    """k input bits per party; a little logic so that the run is a real one."""
+    insts = []
+    for p in range(n):
+        for i in range(k):
+            insts.append(ej.inst("I", p, i, p * k + i))
+    r = n * k
+    insts += [ej.inst("A", 0, k, r), ej.inst("X", r, 1 % (n * k), r + 1), ej.inst("N", r + 1, 0, r + 1)]
+    return {"input_regs": [k] * n, "insts": insts, "max_reg": r + 2, "output_regs": [r + 1, r][:outs], "and_ops": 1}
+
+
+def check_C06(tier, replay):
+    v = Verdict("C06", tier, "exploration")
+    wd = vlib.workdir("C06")
+    q = tier == "quick"
+    rng = random.Random(f"c06-{v.seed}")
+    N = 200 if q else 1000
+    jobs = []
+    # balance groups: fixed inputs, N runs each; both values on every wire of the observed party
+    for (n, h, pe) in ([(2, 0, 1), (3, 1, 1)] if q else [(2, 0, 1), (2, 1, 1), (3, 1, 1), (3, 2, 0), (4, 0, 2)]):
+        c = input_circuit(n, 2)
+        for xs in ([False, True], [True, False]):
+            inputs = [[rng.random() < 0.5 for _ in range(2)] for _ in range(n)]
+            inputs[h] = xs
+            grp = f"bal.n{n}.h{h}.x{int(xs[0])}{int(xs[1])}"
+            for r in range(N):
+                jobs.append(ej.job(f"{grp}.{r}", c, inputs, pe, [0], cap=0, pol={"kind": "Oldest"}, events=False, probes=True,
+                                   content_phases=["masked inputs", "wire shares"],
+                                   tag={"grp": grp, "h": h, "canary": False}))
+    # canary: 128 random input bits of the observed party
+    for r in range(20 if q else 100):
+        n = 2
+        h = r % 2
+        c = input_circuit(n, 128, outs=1)
+        inputs = [[rng.random() < 0.5 for _ in range(128)] for _ in range(n)]
+        jobs.append(ej.job(f"canary.{r}", c, inputs, 0, [1], cap=0, pol={"kind": "Oldest"}, events=False, probes=True,
+                           content_phases=["masked inputs", "wire shares"], canary=[h, inputs[h]],
+                           tag={"grp": "canary", "h": h, "canary": True}))
+    out = vlib.run_pt("engine", jobs, wd, name="c06", timeout=7200)
+    res = vlib.tlc_trace("Mon_C06", vlib.MON_CFG, out, wd, depth_first=False, timeout=3600)
+    jb = {j["id"]: j for j in jobs}
+    for x in res.get("viol", []):
+        if x["run"] == "history":
+            v.violation("C06: " + x["what"].split(":")[0], {"kind": "engine-history", "jobs": len(jobs), "seed": v.seed,
+                                                            "note": "rerun bin/check C06 with the same VERIF_SEED"},
+                        f"history of {len(jobs)} runs: {x['what']}")
+        else:
+            v.violation("C06: " + x["what"], {"kind": "engine-job", "job": jb[x["run"]]}, f"run {x['run']}: {x['what']}")
+    v.coverage = {
+        "evaluations": len(jobs), "distinct_nontrivial": res["counters"] + res["keys"],
+        "rule": "each evaluation = one real honest mpc() run with fixed inputs; Mon_C06 derives, from the transcript only, "
+                "input XOR own-mask-share per input wire of the observed party and accumulates balance counters per "
+                "(group, wire, input value); distinct = balance counters + distinct global keys seen",
+        "samples": [{"job": jobs[0]["id"], "inputs": jobs[0]["inputs"], "tag": jobs[0]["tag"]},
+                    {"job": jobs[-1]["id"], "tag": jobs[-1]["tag"]}],
+        "runs_per_input_value": N, "balance_counters": res["counters"], "global_keys_compared": res["keys"],
+    }
+    v.assumptions = ["first-order balance and freshness only: a subtly biased or correlated generator passes (DESIGN.md 5)"]
+    rc = v.finish()
+    shutil.rmtree(wd, ignore_errors=True)
+    return rc
+
+
+def check_C07(tier, replay):
+    v = Verdict("C07", tier, "exploration")
+    wd = vlib.workdir("C07")
+    q = tier == "quick"
+    rng = random.Random(f"c07-{v.seed}")
+    from . import adv
+    jobs = []
+    if replay:
+        with open(replay) as f:
+            jobs = [json.load(f)["replay"]["job"]]
+    else:
+        # honest runs: circuits with NOT gates (labels offset by the key), every role, n = 2..4
+        for n in (2, 3) if q else (2, 3, 4):
+            for ci, c in enumerate(ej.fixed_small(n) + [ej.gen_circuit(rng, n, gates=6)]):
+                for pe in range(n):
+                    jobs.append(ej.job(f"honest.n{n}.c{ci}.pe{pe}", c, ej.rand_inputs(rng, c), pe, list(range(n)), cap=1,
+                                       pol=ej.policy(rng, n), events=False, probes=True, fields=True,
+                                       tag={"judge": list(range(n)), "triples": (n == 2 and ci == 0 and not q), "c": -1}))
+        # under attack: every preprocessing / online deviation of Adversary.tla; the honest parties' keys are judged
+        for (name, circ, n, pe, po, c) in adv.configs("C07", tier, rng):
+            for fam in ("pre", "online"):
+                scs = adv.scenarios(wd, f"{name}.{fam}", circ, n, pe, po, c, fam)
+                scs.sort(key=lambda s: json.dumps(s, sort_keys=True))
+                if q and len(scs) > 10:
+                    # always keep the deviations that an honest party may not notice (claims it cannot check
+                    # directly); sample the rest
+                    keep = [x for x in scs if x["what"] in ("aShare check bit", "aShare MAC in the decommitment",
+                                                           "aShare commitment to the MAC vector", "LaAND e bit", "HaAND bits")
+                            and x["devs"][0].get("k") == 0]
+                    rest = [x for x in scs if x not in keep]
+                    scs = keep + rng.sample(rest, min(10, len(rest)))
+                for i, sc in enumerate(scs):
+                    devs, taps = adv.to_devs(sc)
+                    jobs.append(ej.job(f"{name}.{fam}.{i}", circ, ej.rand_inputs(rng, circ), pe, po, cap=1, pol=ej.policy(rng, n),
+                                       events=False, devs=devs, taps=taps, probes=True, fields=True,
+                                       tag={"judge": [p for p in range(n) if p != c], "triples": False, "c": c, "what": sc["what"]}))
+    out = vlib.run_pt("engine", jobs, wd, name="c07", timeout=7200)
+    res = vlib.tlc_trace("Mon_C07", vlib.MON_CFG, out, wd, depth_first=False, timeout=3600)
+    jb = {j["id"]: j for j in jobs}
+    for x in res.get("viol", []):
+        j = jb[x["run"]]
+        v.violation(f"C07: {x['what']} [{j['tag'].get('what', 'honest run')}]", {"kind": "engine-job", "job": j, "party": x["p"]},
+                    f"run {x['run']}: party {x['p']}: {x['what']}")
+    v.coverage = {
+        "evaluations": len(jobs), "distinct_nontrivial": len({(len(j["circuit"]["input_regs"]), j["p_eval"], j["tag"].get("what", "honest"),
+                                                              j["tag"]["c"]) for j in jobs}),
+        "rule": "each evaluation = one real run (honest, or with one deviation of Adversary.tla that the run may survive); Mon_C07 "
+                "checks that no honest party's probed global key equals a decoded 128-bit field of the transcript or the XOR of "
+                "two of them (three for a small honest configuration in the thorough tier), nor occurs in the raw bytes",
+        "samples": [{"job": jobs[0]["id"], "tag": jobs[0]["tag"]}, {"job": jobs[-1]["id"], "tag": jobs[-1]["tag"]}],
+        "transcripts_scanned": res["checked"], "fields_scanned": res["fields"],
+    }
+    v.assumptions = ["opaque byte strings (OT matrix, base-OT points, row ciphertexts) are scanned only as raw bytes for the key itself",
+                     "three-element XOR sets only in the thorough tier on one small configuration"]
+    rc = v.finish()
+    shutil.rmtree(wd, ignore_errors=True)
+    return rc
+
+
+REGISTRY.update({"C06": check_C06, "C07": check_C07})
